@@ -3,9 +3,42 @@ CHECKS["C06"] = dict(
     pkg="internal/verif/c06",
     packages=[("internal/verif/c06", "harness/aspen/c06")],
     level="exploration",
-    rule="draft",
-    assumptions=[],
-    technique="draft", level_text="draft", level_note="draft",
-    tests=[dict(name="TestC06Order", quick=dict(cases=100, shards=1), thorough=dict(cases=1000, shards=8, timeout=1500)),
-           dict(name="TestC06Cluster", quick=dict(cases=100, shards=1), thorough=dict(cases=1000, shards=8, timeout=1500))],
+    rule=("TestC06Cluster: rapid generates 2-4 nodes (each a real kv.Open on a memkv engine; all four kv transports are harness "
+          "objects, GossipInterval 10 h so only the harness produces gossip), 1-5 keys, RecoveryThreshold 1-2 and 1-28 steps of: "
+          "local transaction through DB.OpenTx (1-3 distinct keys, set/delete; versions come from the leaseholder's persisted "
+          "counter, writes to keys leased elsewhere travel through the lease transport), operations of two synthetic remote "
+          "leaseholders with own monotonic counters (gaps 1-5) injected as gossip, gossip(a->b) built from a's real infected set "
+          "(reply of a's operation handler to an empty request) with flags drop request / drop ack / ack computed before or after "
+          "b applied the request / feedback delivered, dropped, duplicated or held; late delivery, duplication or loss of held "
+          "feedback; redelivery of any captured request whole, split, reversed, doubled or merged with another; stop / start / "
+          "restart of a node on the same engine (real runRecovery over the harness stream, scripted commit order of the peers); "
+          "partition / heal. After every step each node's engine (value + digest per key) is compared with the last-writer-wins "
+          "fold (higher version, then higher leaseholder) of every operation that node was given (local writes, gossip, acks, "
+          "recovery streams) and with its previous digest (never backwards). At the end the cluster is healed, down nodes are "
+          "started, held feedback is delivered (or dropped), gossip runs round-robin over all ordered pairs until every infected "
+          "set is empty, and every node must hold the LWW winner of all operations that exist. TestC06Order: 2-10 operations of "
+          "1-4 leaseholders on 1-4 keys are delivered to 2-4 fresh single nodes in generated permutations with duplicates and "
+          "batchings; final states must be identical and equal to the LWW fold. Non-trivial = a case in which some node held a "
+          "digest for a key when a different operation on that key arrived (conflict) and at least one delivery was a duplicate "
+          "or stale/reordered; distinct by script hash."),
+    assumptions=["a node's membership view contains every real node from the start (no membership gossip runs); synthetic leaseholders are never members, so feedback addressed to them is lost and writes forwarded to them fail, as for an unknown node",
+                 "at most one node is down at a time: kv.Open fails when any peer's recovery stream cannot be opened, so two simultaneously stopped nodes could never restart",
+                 "lease forwarding is a synchronous RPC in the harness: delivered and answered, or refused (down / partitioned); a lost reply after delivery is not generated",
+                 "two nodes may create the same fresh key concurrently (each becomes leaseholder in its own view); this is the only way two leaseholders for one key arise, for real and synthetic leaseholders alike",
+                 "quiescence is declared when every node's infected set is empty and no feedback is held; the round-robin bound is 6*(threshold+3) sweeps, hitting it discards the case",
+                 "waits on node pipelines (barrier marker visible at observers, gossip store and feedback sender) are bounded by 20 s and discard the case on timeout"],
+    technique=("model-based, schedule-controlling property test (rapid): real kv.Open nodes behind harness-owned freighter transports; "
+               "gossip rounds, feedback, redelivery, restarts and partitions are scripted; per-node LWW reference, digest monotonicity and "
+               "quiescent-convergence oracles; order-independence differential over permuted/duplicated/batched deliveries to fresh nodes"),
+    level_text=("Generated-input search over delivery orders, duplication, batching, feedback timing, restarts with recovery and partitions on "
+                "2-4 real kv nodes; every step is checked against an independent last-writer-wins model. Sampled, not exhaustive; no absence claim."),
+    level_note=("Trusted: the harness transports and the barrier (a marker operation pushed through the same FIFO ingress; marker keys '~m<n>' are "
+                "private to the harness), the LWW model, rapid, the Go toolchain. The production emitter, RandomPeer and real timers are not "
+                "exercised. Divergences are attributed to one sufficient cause per node and key (signature quiescent-divergence:<cause>); each "
+                "cause is matched against known_findings separately. Env C06_EXCLUDE=<sig-or-cause,...> suppresses classes locally "
+                "(investigation aid); C06_NORESTART=1 generates no stop/start."),
+    tests=[dict(name="TestC06Order", quick=dict(cases=5000, shards=1, shrinktime="30s"),
+                thorough=dict(cases=12000, shards=4, timeout=1500)),
+           dict(name="TestC06Cluster", quick=dict(cases=2000, shards=2, shrinktime="30s"),
+                thorough=dict(cases=5000, shards=16, timeout=1500, shrinktime="120s"))],
 )
